@@ -158,6 +158,14 @@ example : (run Skeleton.current init
      .callRecover 0 eLinkCtx, .callStart 1 5 2 1]).map
     (fun s => decide (s.closures 0 = false ∧ s.closures 1 = true ∧ (s.calls 1).closures = [1])) = some true := by decide
 
+/-- The closure table is touched by exactly the three operations M2 models — `CallClosure`'s lookup,
+    `registerClosure`'s insert and its release function's delete — and nowhere else in the package
+    (so no teardown, hook or other link can add or drop registrations behind the owning call's back).
+    Checked against the regenerated skeleton. -/
+theorem C12_table_touched_only_by_owner :
+    Skeleton.current.clTableSites = 3 ∧ Skeleton.current.clLookupUnderLock = true ∧
+    Skeleton.current.clInsertUnderLock = true ∧ Skeleton.current.clDeleteUnderLock = true := by decide
+
 end Panrpc.Ep
 
 #print axioms Panrpc.Ep.C12_table_is_inflight
@@ -169,3 +177,4 @@ end Panrpc.Ep
 #print axioms Panrpc.Ep.C12_inflight_invocation_hits
 #print axioms Panrpc.Ep.C12_ids_fresh
 #print axioms Panrpc.Ep.C12_one_owner
+#print axioms Panrpc.Ep.C12_table_touched_only_by_owner
